@@ -9,7 +9,9 @@ from props import _spec
 ID = 'C11'
 LEAN_MODULES = ['Proofs.C11']
 REQUIRED = ['C11.unfold_fold', 'C11.holo_sparse_in_shape', 'C11.holo_eq_spec', 'C11.holo_shape',
-            'C11.holo_sum_eq', 'C11.holo_mean_eq', 'C11.holo_total', 'C11.holo_energy_is_square']
+            'C11.holo_sum_eq', 'C11.holo_mean_eq', 'C11.holo_total', 'C11.holo_energy_is_square',
+            'C11.holo_sparse_one_per_sample', 'C11.holo_nnz', 'C11.decreasing_edges_digitize',
+            'C11.increasing_edges_digitize', 'C11.squash_other_raises', 'C11.mean_empty_raises']
 TRUSTED = ['np.digitize, scipy.sparse.coo_matrix(...).toarray()/sum(axis=0)/mean(axis=0) and ndarray.reshape are modelled by what they do '
            'to indices (count of edges <= v; scatter-add with accumulating duplicates; column sums; C-order chunking)',
            'bin edges come from the real define_hist_bins and are handed to the model as exact rationals',
@@ -19,8 +21,15 @@ TRUSTED = ['np.digitize, scipy.sparse.coo_matrix(...).toarray()/sum(axis=0)/mean
            'outputs off them (cell [t][a][c] = sum of the entries with row t and column (c+1)+(a+1)(L1+1): Spectra.holo3d_eq, '
            'C11.unfold_fold, C11.holo_sum_eq, C11.holo_mean_eq); on every case of stream holo_random this reading is compared with the '
            'model\'s own unfolded full / sum / mean outputs']
-ASSUMPTIONS = ['edges_weakly_increasing: the theorems assume both edge vectors are non-decreasing (validated for every edge vector '
-               'produced by define_hist_bins in the run: instance kinds assumption:carrier-edges-not-increasing / am-edges-not-increasing)',
+ASSUMPTIONS = ['edges_weakly_increasing: the histogram SPEC theorems (holo_eq_spec, holo_total, holo_sparse_one_per_sample) assume both edge '
+               'vectors are non-decreasing (validated for every edge vector produced by define_hist_bins in the run: instance kinds '
+               'assumption:carrier-edges-not-increasing / am-edges-not-increasing). np.digitize also accepts DEcreasing edges with the mirrored '
+               'convention edges[i-1] > v >= edges[i]; the model follows it (Spectra.digitizeM, theorem C11.decreasing_edges_digitize) and is '
+               'compared with the code on such edges (stream holo_malformed, why=decreasing-edges, tag outside-domain:decreasing-edges: '
+               'compared, not judged by the instance check); non-monotonic edges: ValueError on both sides',
+               'squash_time values other than False / sum / mean raise TypeError after the sparse matrix is built (C11.squash_other_raises; '
+               'stream holo_squash_other compares the error kind, including its precedence after shape and edge errors); the mean over an '
+               'empty time axis raises ZeroDivisionError (C11.mean_empty_raises; holo_mean_eq is stated for T > 0)',
                'amplitudes are finite']
 RULE = ('exhaustive: every assignment of the edge-hitting alphabets {below, negative, each edge, each bin interior, above, NaN} of the '
         'carrier bin set to the T*M first-level samples and of the AM bin set to the T*M*K second-level samples, for (T,M,K) in '
@@ -372,6 +381,12 @@ class Large(Single):
         return t
 
 
+# the probe of review B / Proofs/C11.lean `decRows`: with e1=[3,2,1], e2=[0,1,2], amplitude mode the full output is
+# [[[0,1],[4,2]],[[0,0],[0,0]]]
+DEC_DATA = {'F1': [[1.5, 2.5], [3.0, 0.5]], 'F2': [[[0.5, 1.5], [1.0, 2.0]], [[0.0, 1.2], [None, 0.1]]],
+            'A2': [[[1.0, 2.0], [4.0, 8.0]], [[16.0, 32.0], [64.0, 128.0]]], 'mode': 'amplitude'}
+
+
 class Malformed(Stream):
     """Rejected / degenerate inputs: the error kind (or the empty result) must agree with the model."""
     name = 'holo_malformed'
@@ -396,13 +411,19 @@ class Malformed(Stream):
             c((2, 2), (2, 2, 2), (2, 2, 2), 'single-edge', e1=[1.0], e2=[1.0]),
             c((0, 2), (0, 2, 2), (0, 2, 2), 'no-samples'),
             c((2, 2), (2, 2, 1), (2, 2), 'inam2-2d-K1'),
+            # decreasing edges (review B, C11): np.digitize accepts them with the mirrored convention; model: digitizeM
+            dict(c((2, 2), (2, 2, 2), (2, 2, 2), 'decreasing-edges', e1=[3.0, 2.0, 1.0]), **DEC_DATA),
+            dict(c((2, 2), (2, 2, 2), (2, 2, 2), 'decreasing-edges', e1=[1.0, 2.0, 3.0], e2=[2.0, 1.0, 0.0]), **DEC_DATA),
+            dict(c((2, 2), (2, 2, 2), (2, 2, 2), 'decreasing-edges', e1=[3.0, 2.0, 1.0], e2=[2.0, 1.0, 0.0]), **DEC_DATA),
+            dict(c((2, 2), (2, 2, 2), (2, 2, 2), 'decreasing-edges', e1=[3.0, 2.0, 2.0, 1.0], e2=[2.0, 2.0, 0.0]), **DEC_DATA),
+            dict(c((2, 2), (2, 2, 2), (2, 2, 2), 'decreasing-edges', e1=[2.0, 2.0, 2.0], e2=[2.0, 1.0]), **DEC_DATA),
         ]
 
     def generate(self, rng, tier):
         for _ in range(80 if tier == 'thorough' else 20):
             T, M, K = rng.randint(1, 4), rng.randint(1, 3), rng.randint(1, 3)
             s1, s2, s3 = [T, M], [T, M, K], [T, M, K]
-            why = rng.choice(['T-differs', 'M-differs', 'K-differs', 'infr2-2d', 'ok'])
+            why = rng.choice(['T-differs', 'M-differs', 'K-differs', 'infr2-2d', 'ok', 'decreasing-edges', 'decreasing-edges'])
             if why == 'T-differs':
                 rng.choice([s1, s2, s3])[0] += rng.choice([1, 2])
             elif why == 'M-differs':
@@ -412,7 +433,14 @@ class Malformed(Stream):
             elif why == 'infr2-2d':
                 s2, s3 = s2[:2], s3[:2]
             mk = lambda s: np.array([float(rng.randint(-1, 6)) for _ in range(int(np.prod(s)))]).reshape(s).tolist()  # noqa: E731
-            yield {'F1': mk(s1), 'F2': mk(s2), 'A2': mk(s3), 'e1': [1.0, 2.0, 4.0, 5.0], 'e2': [0.0, 3.0, 5.0],
+            e1, e2 = [1.0, 2.0, 4.0, 5.0], [0.0, 3.0, 5.0]
+            if why == 'decreasing-edges':
+                which = rng.choice([1, 2, 3])
+                e1 = e1[::-1] if which & 1 else e1
+                e2 = e2[::-1] if which & 2 else e2
+                if rng.random() < 0.3:
+                    e1 = sorted(e1 + [rng.choice(e1)], reverse=e1[0] > e1[-1])      # a repeated edge
+            yield {'F1': mk(s1), 'F2': mk(s2), 'A2': mk(s3), 'e1': e1, 'e2': e2,
                    'mode': rng.choice(_spec.MODES), 'why': why, 'seq': rng.randrange(6)}
 
     def _arrays(self, case):
@@ -454,6 +482,8 @@ class Malformed(Stream):
 
     def tags(self, case, out):
         t = ['why=' + case['why']]
+        if case['why'] == 'decreasing-edges':
+            t.append('outside-domain:decreasing-edges')
         if not isinstance(out, ImplError):
             t += ['%s->%s' % (nm, out[nm].get('error', 'value')) for nm, _ in _spec.SQUASH]
         return t
@@ -462,4 +492,75 @@ class Malformed(Stream):
         return case['why'] != 'ok'
 
 
-STREAMS = [Exhaustive(), Single(), Large(), Malformed()]
+class SquashOther(Stream):
+    """`squash_time` values that are none of False / 'sum' / 'mean': the code falls through every branch and subscripts the
+    still-sparse matrix (TypeError) — after the shape checks, np.digitize and coo_matrix, whose errors come first."""
+    name = 'holo_squash_other'
+    VALUES = {'True': True, '0': 0, 'None': None, 'Sum': 'Sum', 'np.False_': np.False_, '1': 1, 'empty-string': ''}
+
+    def corpus(self):
+        base = {'F1': DEC_DATA['F1'], 'F2': DEC_DATA['F2'], 'A2': DEC_DATA['A2'], 'mode': 'energy'}
+        o = np.ones
+        return [dict(base, e1=[1.0, 2.0, 3.0], e2=[0.0, 1.0, 2.0], why='ok'),
+                dict(base, e1=[3.0, 2.0, 1.0], e2=[0.0, 1.0, 2.0], why='decreasing-edges'),
+                dict(base, e1=[1.0, 3.0, 2.0], e2=[0.0, 1.0, 2.0], why='edges-not-monotone'),
+                dict(base, e1=[], e2=[0.0, 1.0, 2.0], why='no-edges'),
+                {'F1': o((2, 2)).tolist(), 'F2': o((3, 2, 2)).tolist(), 'A2': o((3, 2, 2)).tolist(), 'mode': 'energy',
+                 'e1': [1.0, 2.0, 3.0], 'e2': [0.0, 1.0, 2.0], 'why': 'T-differs'},
+                {'F1': o((2, 2)).tolist(), 'F2': o((2, 2, 2)).tolist(), 'A2': o((2, 2, 3)).tolist(), 'mode': 'energy',
+                 'e1': [1.0, 2.0, 3.0], 'e2': [0.0, 1.0, 2.0], 'why': 'K-differs'}]
+
+    def generate(self, rng, tier):
+        for _ in range(40 if tier == 'thorough' else 8):
+            T, M, K = rng.randint(1, 3), rng.randint(1, 3), rng.randint(1, 3)
+            s1, s2, s3 = [T, M], [T, M, K], [T, M, K]
+            why = rng.choice(['ok', 'ok', 'T-differs', 'K-differs', 'edges-not-monotone'])
+            if why == 'T-differs':
+                rng.choice([s1, s2, s3])[0] += 1
+            elif why == 'K-differs':
+                rng.choice([s2, s3])[2] += 1
+            mk = lambda s: np.array([float(rng.randint(-1, 6)) for _ in range(int(np.prod(s)))]).reshape(s).tolist()  # noqa: E731
+            yield {'F1': mk(s1), 'F2': mk(s2), 'A2': mk(s3), 'e1': [1.0, 4.0, 2.0] if why == 'edges-not-monotone' else [1.0, 2.0, 4.0],
+                   'e2': [0.0, 3.0, 5.0], 'mode': rng.choice(_spec.MODES), 'why': why}
+
+    def impl(self, case):
+        from emd import spectra
+        out = {}
+        for lab, v in self.VALUES.items():
+            try:
+                spectra.holospectrum(_spec.arr(case['F1']), _spec.arr(case['F2']), _spec.arr(case['A2']),
+                                     np.asarray(case['e1'], dtype=float), np.asarray(case['e2'], dtype=float),
+                                     mode=case['mode'], squash_time=v)
+                out[lab] = 'value'
+            except Exception as e:  # noqa
+                from common.framework import err_kind
+                out[lab] = err_kind(e)
+        return out
+
+    def ops(self, case, out):
+        from common import proto
+        vecs = _spec._holo_vecs(_spec.arr(case['F1']), _spec.arr(case['F2']), _spec.arr(case['A2']), case['e1'], case['e2'])
+        return [proto.op('HOLO', {'mode': case['mode'], 'squash': 'other'}, vecs)]
+
+    def compare(self, case, out, results):
+        if isinstance(out, ImplError):
+            return 'implementation raised %s' % out['error']
+        r = results[0]
+        if r.status != 'err':
+            return 'model answered %s for an unrecognised squash_time' % r.raw[:80]
+        for lab, got in out.items():
+            if got != r.words[0]:
+                return 'squash_time=%s: implementation %s, model err %s' % (lab, got, r.words[0])
+        return None
+
+    def holds(self, case, out):
+        return []          # outside the documented values of squash_time: compared with the model, not judged
+
+    def tags(self, case, out):
+        t = ['why=' + case['why'], 'outside-domain:squash_time-not-False/sum/mean']
+        if not isinstance(out, ImplError):
+            t += sorted({'raises=' + v for v in out.values()})
+        return t
+
+
+STREAMS = [Exhaustive(), Single(), Large(), Malformed(), SquashOther()]
